@@ -58,7 +58,7 @@ def err_sources(f):
 
 
 def C09_1(ctx, facts):
-    impls = accept_impls(facts)
+    impls = [facts.unit(g) for g in accept_impls(facts)]
     extra = [facts.unit(facts.method("stream::duplex::DuplexIncoming", "Stream", "poll_next"))]
     want = 6 if ctx.cur_config in ("tls", "mocks", "aws") else 5
     ctx.floor("Accept-impls", len(impls), want, "impls of Accept::poll_accept")
@@ -133,14 +133,18 @@ def C09_3(ctx, facts):
     polls = [c for c in f.calls() if norm(c.decl or c.name).endswith("::poll")]
     ctx.floor("ConnectionDriver::poll|conn-poll", len(polls), 1, "poll of the connection")
 
-    def edge(var):
-        return lambda lab: lab.kind == "variant" and lab.variants == {var} and any(isinstance(e, dict) and e.get("d") == "Ready" for e in lab.place["p"])
-
-    for var in ("Ok", "Err"):
-        es = f.edges_where(edge(var))
-        ok = bool(es) and all(f.path(b, f.returns, avoid_blocks=set(readys)) is None for (a, b) in es)
-        ctx.check(ok, "ConnectionDriver::poll|%s-completes" % var, "on Ready(%s) of the connection the driver completes with Ready(())" % var,
-                  "on Ready(%s) the driver does not complete" % var, f.where())
+    from core import L_poll
+    es = f.edges_where(L_poll(f, True, {c.bb for c in polls}))
+    ctx.floor("ConnectionDriver::poll|ready-edge", len(es), 1, "Ready edge of the connection poll")
+    for (a, b) in es:
+        p_ = f.path(b, f.returns, avoid_blocks=set(readys))
+        ctx.check(p_ is None, "ConnectionDriver::poll|ready-completes", "once the connection resolved - Ok or Err alike - the driver completes with Ready(()) (the error goes to the log, not to the server)",
+                  "after the connection resolved the driver can return without completing", f.where(a), f.path_desc(p_))
+    # and nothing but () can come out: no path on which the connection's error value reaches the return place
+    for (k, bb, x) in assigns_to_return(f, f.live):
+        rr = f.roots(x["r"]["ops"][0], through_calls=False) if k == "stmt" and x["r"]["k"] == "agg" and x["r"].get("ops") else set()
+        ctx.check(not any(r.kind == "call" and r.site.bb in {c.bb for c in polls} for r in rr), "ConnectionDriver::poll|error-not-returned",
+                  "the value returned does not carry the connection's result", "the connection's result is returned to the caller", f.where(bb))
     pool2.waker_rule(ctx, f, "ConnectionDriver::poll")
     gim = [im for im in facts.impls_of("Future", "server::conn::drivers::GracefulConnectionDriver")]
     out = None
